@@ -43,6 +43,8 @@ def generate(prop, rng):
             tree[rel] = rng.randrange(len(pool))
         if not tree:
             tree["f"] = 0
+        if rng.random() < 0.15:
+            tree = {}  # the object of an empty directory ("[]")
         dirobjs.append({"key": key, "tree": tree})
     files = {}
     for _ in range(rng.randint(0, 4)):
@@ -117,7 +119,7 @@ def valid(sc):
     n = len(sc["contents"])
     for d in sc["dirobjs"]:
         t = d["tree"]
-        if not t or any(ci >= n for ci in t.values()):
+        if any(ci >= n for ci in t.values()):
             return False
         ks = sorted(t)
         if any(b.startswith(a + "/") for a in ks for b in ks if a != b):
